@@ -59,6 +59,20 @@ def grid_cases(rng, tier):
         setup={'include_gravity_head_loss': True})
     one('nogrid-lowfi', bundle_type(3, use_low_fidelity_model=True),
         gap_model='flow', setup={'include_gravity_head_loss': True})
+    # one type at several positions with different flows, un-rodded regions
+    # of both kinds: tallies are per assembly, not per type
+    from harness.scenarios import fitted_type, layout_positions
+    T1 = add_regions(fitted_type(2, 0.060, SpacerGrid=dict(
+        g, axial_positions=[0.25, 0.35])), L,
+        lower=dict(model='simple', vf_coolant=0.3),
+        upper=dict(model='6node', vf_coolant=0.4))
+    p4 = layout_positions(4)
+    fb = flow_for(T1, 0.12)
+    out.append(('core-one-type-regions', make_core(
+        rng, {'T': T1}, [(r_, p_, 'T') for (r_, p_) in p4],
+        [fb, 0.7 * fb, 0.45 * fb, 0.85 * fb], gap_model='flow',
+        bypass_fraction=0.03,
+        setup={'include_gravity_head_loss': True})))
     if tier == 'thorough':
         for i in range(8):
             n = rng.choice([2, 3])
